@@ -32,6 +32,12 @@ CLAIMS = {
 }
 TECH = "contract-based deductive verification: go/ssa weakest-precondition VCs (govc), z3 5.1 / cvc5 1.0 / z3 4.8"
 NA = {
+ "C04": "a statement over histories of frames, DHCP updates and elapsed time: its per-operation refinement needs the table invariant of C05 as the frame of every operation (what else did not change); that invariant is not established (see C05), and the reference model of discovery/ageing over time has no contract form here",
+ "C05": "not established: the local contracts exist (MACEntry.unlink, MACTable.findOrCreate/delete, Session.deleteHost, nested no-nil invariant) but preservation of the global invariant needs (a) separation of the per-entry HostList backing arrays (a fact about all pairs of entries), (b) postconditions relating a shifted slice to its old contents (no old() for whole slices in the harness language), (c) for printHostTable a cardinality argument (sum of list lengths == size of the index); see DESIGN.md 12.3",
+ "C06": "exactly-once notification over a history of Parse/Notify calls: needs C05's invariant and a ghost history of the notification channel; channel sends are not modelled beyond a counter, and the goroutine that drains the channel is a schedule matter",
+ "C11": "the DHCP server's handleDiscover/Request/Decline/Release and its lease table are not under contract: executed whole the handler lemma produces megabyte queries that time out (DESIGN.md 11.2), per-function contracts were not written; the property is moreover an invariant over all interleavings of several clients' messages and lease expiry",
+ "C12": "same handler as C11: no contracts on the reply builders (offer/ack/nak) of handlers/dhcp4_spoofer; only the encoder underneath (EncodeDHCP4, AppendOptions) is proved (C03/C07)",
+ "C18": "the lease file round trip goes through yaml/os (abstracted external code) and the lease table of C11; no contract within reach states what a truncated file decodes to",
  "C09": "quantifies over schedules (data races, deadlocks, quiescent points); a sequential contract verifier has no interleaving semantics, so no obligation it can generate distinguishes a racy program from a race-free one",
 }
 PENDING = "not claimed yet: contracts for this property are not discharged in the current build (see DESIGN.md build order)"
